@@ -8,6 +8,7 @@
 From Coq Require Import ZArith List Bool.
 From Coq.Strings Require Import Byte String.
 From TS Require Import Bytes State Prog Ops Interp NopSpec SigSpec ConfigSpec.
+From TS Require SigExtOnce.
 Import ListNotations.
 Open Scope Z_scope.
 
@@ -49,6 +50,37 @@ Theorem C09_check_sig_runs_plugins_once :
     interp orc cfg run (check_sig_body (b2z b)) (adv fr 1) (sigext_log cfg st).
 Proof. exact check_sig_decomposed. Qed.
 
+(* ---- WHEN the signature-extension plugins run (proofs/SigExtOnce.v).  A plugin run is the log event EvSigExt id.
+   (1) exactly once, and first: each of GET_MESSAGE, CHECK_SIG(_VERIFY), CHECK_MULTISIG(_VERIFY), SIGN adds, in every outcome (Done or
+       Raised), exactly the configured plugins, each once, in order -- for every oracle, configuration, runner (hence at every nesting
+       level), frame and state; the inner signature checks of CHECK_MULTISIG (any number of signatures x keys) never run them again;
+       CHECK_TEMPLATE(_VERIFY) the same when flag 10 is absent or truthy and not at all when it is present and falsy; OP_TAPROOT's key
+       path exactly once (under the preconditions of the key-path theorem), never twice in any state;
+   (2) never otherwise: every other instruction of the table, NOP included, adds no plugin event (block instructions: none of their
+       own; what their sub-tapes add is the runner's) -- so a plugin event in the log means a signature instruction executed.
+   Closed statements (all Section variables explicit) are printed by Check. *)
+Definition C09_sig_instructions_run_plugins_exactly_once := @SigExtOnce.sig_instruction_runs_plugins_exactly_once.
+Definition C09_sig_instructions_once_at_every_level := @SigExtOnce.sig_instruction_once_at_every_level.
+Definition C09_multisig_inner_checks_never_rerun_plugins := @SigExtOnce.ms_go_never_twice.
+Definition C09_check_template_runs_plugins_once_iff_flag10 := @SigExtOnce.check_template_runs_plugins_exactly_once.
+Definition C09_taproot_key_path_runs_plugins_exactly_once := @SigExtOnce.taproot_key_path_plugins_exactly_once.
+Definition C09_taproot_never_twice := @SigExtOnce.taproot_at_most_once.
+Definition C09_other_instructions_run_no_plugin := @SigExtOnce.other_instructions_run_no_plugin.
+Definition C09_plugin_event_only_from_sig_instruction := @SigExtOnce.plugin_event_only_from_sig_instruction.
+Definition C09_no_sigext_iff_not_sig_instruction := @SigExtOnce.no_sigext_iff.
+Check C09_sig_instructions_run_plugins_exactly_once.
+Check C09_sig_instructions_once_at_every_level.
+Check C09_multisig_inner_checks_never_rerun_plugins.
+Check C09_check_template_runs_plugins_once_iff_flag10.
+Check C09_taproot_key_path_runs_plugins_exactly_once.
+Check C09_taproot_never_twice.
+Check C09_other_instructions_run_no_plugin.
+Check C09_plugin_event_only_from_sig_instruction.
+Check C09_no_sigext_iff_not_sig_instruction.
+Print SigExtOnce.plugins_once.
+Print SigExtOnce.plugin_instructions.
+Print SigExtOnce.is_sig_op.
+
 Theorem C09_eval_stays_disallowed :
   forall orc cfg run fr st v,
   flag_get (c_flags cfg) (FKStr (str "disallow_OP_EVAL")) = Some v ->
@@ -80,3 +112,12 @@ Print Assumptions C09_check_sig_runs_plugins_once.
 Print Assumptions C09_eval_stays_disallowed.
 Print Assumptions C09_set_flag_refuted.
 Print Assumptions C09_unset_flag_changes_nothing.
+Print Assumptions C09_sig_instructions_run_plugins_exactly_once.
+Print Assumptions C09_sig_instructions_once_at_every_level.
+Print Assumptions C09_multisig_inner_checks_never_rerun_plugins.
+Print Assumptions C09_check_template_runs_plugins_once_iff_flag10.
+Print Assumptions C09_taproot_key_path_runs_plugins_exactly_once.
+Print Assumptions C09_taproot_never_twice.
+Print Assumptions C09_other_instructions_run_no_plugin.
+Print Assumptions C09_plugin_event_only_from_sig_instruction.
+Print Assumptions C09_no_sigext_iff_not_sig_instruction.
